@@ -59,10 +59,61 @@ def gen_tree(rng, root):
             f.write("".join(l + "\n" for l in lines))
         os.chmod(os.path.join(root, path), 0o644)
         files.append(path)
+    add_links(rng, root, dirs, files)
     with open(os.path.join(root, "pre.sh"), "w") as f:
         f.write('#!/bin/sh\ncase "$1" in *slow*) sleep 0.0%d;; esac\nexec cat "$1"\n' % rng.randint(1, 6))
     os.chmod(os.path.join(root, "pre.sh"), 0o755)
     return files
+
+
+def add_links(rng, root, dirs, files):
+    """symbolic links (names without '-' and ':', so the block grammar still finds the path): directory links to `.`,
+    `..`, a sibling directory, an ancestor two levels up; dangling links; links to files.  They only matter with -L."""
+    n = 0
+    def link(target, at):
+        nonlocal n
+        p = os.path.join(root, at)
+        if not os.path.lexists(p):
+            os.symlink(target, p)
+            n += 1
+    real = [d for d in dirs if d != "."]
+    for d in real:
+        if rng.random() < 0.6:
+            link(".", os.path.join(d, "self%d" % n))                     # its own containing directory
+        if rng.random() < 0.3:
+            link("..", os.path.join(d, "par%d" % n))                     # the parent
+        if rng.random() < 0.3:
+            sib = rng.choice(real)
+            if sib != d and not sib.startswith(d + "/") and not d.startswith(sib + "/"):
+                link(os.path.relpath(sib, d), os.path.join(d, "sib%d" % n))   # a sibling: files reachable twice
+        if rng.random() < 0.2:
+            link("no_such_target", os.path.join(d, "dang%d.txt" % n))    # dangling
+    if rng.random() < 0.5:
+        link("../..", os.path.join("d0/sub", "up%d" % n))                # an ancestor two levels up
+    if rng.random() < 0.3:
+        link(".", "rootself%d" % n)
+    for f in files:
+        if rng.random() < 0.15:
+            d = rng.choice(dirs)
+            link(os.path.relpath(f, d), os.path.join(d, "lf%d.txt" % n))  # a link to a file
+
+
+def corpus_tree(root):
+    """corner case kept from a past failure: a directory that contains a link to itself, files beside and below it"""
+    for d in ("sub/deep", "other"):
+        os.makedirs(os.path.join(root, d))
+    for d in ("sub", "sub/deep", "other"):
+        os.chmod(os.path.join(root, d), 0o755)
+    for path, text in (("sub/f.txt", "alpha\nhit one\n"), ("sub/deep/h.txt", "hit two\nbeta\n"),
+                       ("other/g.txt", "gamma\nhit three\n")):
+        with open(os.path.join(root, path), "w") as f:
+            f.write(text)
+        os.chmod(os.path.join(root, path), 0o644)
+    os.symlink(".", os.path.join(root, "sub/self"))
+    os.symlink("..", os.path.join(root, "sub/deep/up"))
+    with open(os.path.join(root, "pre.sh"), "w") as f:
+        f.write('#!/bin/sh\nexec cat "$1"\n')
+    os.chmod(os.path.join(root, "pre.sh"), 0o755)
 
 
 def mode_args(mode):
@@ -181,24 +232,31 @@ def split_blocks(mode, out):
 
 def check_cli(ctx, rng, ntrees, runs_per_tree):
     trees = []
+    jobs = []
+    root = K.mktree("c08")
+    corpus_tree(root)
+    trees.append(root)
+    for mode in ("noheading", "files", "heading", "count"):
+        for n in (2, 4, 8):
+            jobs.append(dict(root=root, mode=mode, n=n, pre=False, sort=False, follow=True))
     for _ in range(ntrees):
         root = K.mktree("c08")
         gen_tree(rng, root)
         trees.append(root)
-    jobs = []
-    for root in trees:
         for _ in range(runs_per_tree):
             mode = rng.choice(MODES)
             n = rng.randint(2, 16)
             pre = rng.random() < 0.35 and mode != "files"
             sort = rng.random() < 0.15
-            jobs.append(dict(root=root, mode=mode, n=n, pre=pre, sort=sort))
+            jobs.append(dict(root=root, mode=mode, n=n, pre=pre, sort=sort, follow=rng.random() < 0.45))
     def run(j):
         base = mode_args(j["mode"])
         if j["pre"]:
             base = base + ["--pre", "./pre.sh"]
         if j["sort"]:
             base = base + ["--sort", "path"]
+        if j["follow"]:
+            base = ["-L"] + base
         r1 = K.run_rg(["-j1"] + base, j["root"], nobody=False)
         rn = K.run_rg(["-j%d" % j["n"]] + base, j["root"], nobody=False)
         rn2 = K.run_rg(["-j%d" % j["n"]] + base, j["root"], nobody=False)
@@ -208,25 +266,35 @@ def check_cli(ctx, rng, ntrees, runs_per_tree):
     stat = ctx.cov.setdefault("modes", {})
     orders_differ = 0
     for j, (r1, rn, rn2) in zip(jobs, res):
-        key = "%s%s%s" % (j["mode"], "/pre" if j["pre"] else "", "/sort" if j["sort"] else "")
+        key = "%s%s%s%s" % (j["mode"], "/pre" if j["pre"] else "", "/sort" if j["sort"] else "", "/L" if j["follow"] else "")
         stat[key] = stat.get(key, 0) + 1
-        replay = dict(kind="cli", mode=j["mode"], n=j["n"], pre=j["pre"], sort=j["sort"],
+        replay = dict(kind="cli", mode=j["mode"], n=j["n"], pre=j["pre"], sort=j["sort"], follow=j["follow"],
+                      tree=tree_listing(j["root"]), args=" ".join((["-L"] if j["follow"] else []) + mode_args(j["mode"])),
                       j1=dict(status=r1["status"], out=repr(r1["out"][:400]), err=repr(r1["err"][:200])),
                       jn=dict(status=rn["status"], out=repr(rn["out"][:400]), err=repr(rn["err"][:200])))
         b1, p1, s1 = split_blocks(j["mode"], r1["out"])
-        ctx.note_case(repr((j["root"], j["mode"], j["n"], j["pre"], j["sort"])), len(b1) >= 2)
-        if r1["err"] or rn["err"] or rn2["err"]:
-            differs = rn["status"] != r1["status"] or rn2["status"] != r1["status"]
-            ctx.violation("diagnostics in an error-free tree%s: %r" % (
-                "; exit status differs: -j1 %d, -j%d %d/%d" % (r1["status"], j["n"], rn["status"], rn2["status"])
-                if differs else "", (r1["err"] or rn["err"] or rn2["err"])[:160]), replay, nfi=not differs)
+        ctx.note_case(repr((j["root"], j["mode"], j["n"], j["pre"], j["sort"], j["follow"])), len(b1) >= 2)
+        if j["follow"]:
+            ctx.cov["follow_runs"] = ctx.cov.get("follow_runs", 0) + 1
+            if r1["err"]:
+                ctx.cov["follow_runs_with_loop_or_dangling_messages"] = ctx.cov.get(
+                    "follow_runs_with_loop_or_dangling_messages", 0) + 1
+        # diagnostics: only the walker's messages about links (loops, dangling targets) under -L are expected; each is
+        # determined by its path, so the two runs must print the same multiset of lines
+        e1 = canon_err(r1["err"])
+        unexpected = [l for l in e1 if l[0] == "other" or not j["follow"]]
+        if unexpected:
+            ctx.violation("diagnostics in an error-free tree: %r" % unexpected[:2], replay, nfi=True)
             continue
+        bad_err = [r for r in (rn, rn2) if canon_err(r["err"]) != e1]
         if p1:
             ctx.violation("the -j1 output does not follow the block grammar (check or printer changed): " + p1[0], replay,
                           nfi=True)
             continue
+        failed = False
         for r in (rn, rn2):
             bn, pn, sn = split_blocks(j["mode"], r["out"])
+            failed = True
             if r["status"] != r1["status"]:
                 ctx.violation("exit status differs: -j1 %d, -j%d %d" % (r1["status"], j["n"], r["status"]), replay)
                 break
@@ -243,8 +311,15 @@ def check_cli(ctx, rng, ntrees, runs_per_tree):
             if j["sort"] and norm(r["out"]) != norm(r1["out"]):
                 ctx.violation("--sort path: -j%d output differs from -j1" % j["n"], replay)
                 break
+            failed = False
             if [p for p, _ in bn] != [p for p, _ in b1]:
                 orders_differ += 1
+        if failed:
+            continue
+        if bad_err:
+            ctx.violation("-j%d prints different diagnostics than -j1 (same blocks): %r vs %r" % (
+                j["n"], bad_err[0]["err"][:200], r1["err"][:200]), replay)
+            continue
         # the model replays the completion order observed in the -jN output and must give exactly its bytes
         bn, pn, sn = split_blocks(j["mode"], rn["out"])
         if not pn and j["mode"] != "json" and len(rn["out"]) < 60000:
@@ -273,6 +348,40 @@ def check_cli(ctx, rng, ntrees, runs_per_tree):
     ctx.cov["cli_jobs"] = len(jobs)
     for root in trees:
         K.rmtree(root)
+
+
+def canon_err(err):
+    """stderr as a sorted list of (kind, path...): the serial walker (walkdir) and the parallel walker word the same
+    fact differently ('IO error for operation on P: ...' vs 'P: ...'), so only kind and path are kept"""
+    res = []
+    for l in err.split(b"\n"):
+        if not l:
+            continue
+        m = re.match(rb"rg: File system loop found: (\S+) points to an ancestor (\S+)$", l)
+        if m:
+            res.append(("loop", os.path.normpath(m.group(1).decode()), os.path.normpath(m.group(2).decode())))
+            continue
+        m = re.match(rb"rg: (?:IO error for operation on )?(\S+?): (?:IO error for operation on \S+: )?No such file or directory", l)
+        if m:
+            res.append(("nofile", os.path.normpath(m.group(1).decode())))
+            continue
+        res.append(("other", l.decode("latin1")))
+    return sorted(res)
+
+
+def tree_listing(root):
+    res = []
+    for d, ds, fs in os.walk(root):
+        for x in sorted(ds + fs):
+            p = os.path.join(d, x)
+            rel = os.path.relpath(p, root)
+            if os.path.islink(p):
+                res.append("%s -> %s" % (rel, os.readlink(p)))
+            elif os.path.isdir(p):
+                res.append(rel + "/")
+            else:
+                res.append("%s (%d bytes)" % (rel, os.path.getsize(p)))
+    return sorted(res)
 
 
 def check_bufwriter(ctx, rng, n):
@@ -316,7 +425,9 @@ def run(ctx):
     rng = ctx.rng
     ctx.cov["rule"] = ("trees of 2-12 *.txt files (0..40000 lines, hit density 0/5%%/30%%/100%%) in up to 5 directories; per "
                        "tree several runs: mode in %s x N in 2..16 x slow --pre on 'slow*' files (35%%) x --sort path "
-                       "(15%%); every configuration run once with -j1 and twice with -jN. non-trivial = at least two "
+                       "(15%%) x -L (45%%; trees contain directory links to '.', '..', a sibling, an ancestor two levels up, "
+                       "dangling links and links to files); a fixed corner tree (directory containing a link to itself) first; "
+                       "every configuration run once with -j1 and twice with -jN. non-trivial = at least two "
                        "non-empty blocks." % ", ".join(MODES))
     check_bufwriter(ctx, rng, ctx.count(150))
     check_crlf_known(ctx)
